@@ -634,6 +634,29 @@ func routeFacts() {
 	iNd := strings.Index(hsb, "newDb, err := kv.NewDB(")
 	iEn2 := strings.Index(hsb, "newDb.EnableNotifications(fc.termOptions.NotificationsEnabled)")
 	iSet := strings.Index(hsb, "fc.db = newDb fc.commitOffset.Store(commitOffset) fc.lastAppendedOffset = commitOffset")
+	kp := parse("server/kv/kv_pebble.go")
+	kps := ""
+	if kp != nil {
+		for _, d := range kp.Decls {
+			kps += squash(src(d)) + " "
+		}
+	}
+	add("pebbleRunsWithoutItsOwnWal", "Bool", boolLean(strings.Contains(kps, "DisableWAL: true,") && strings.Contains(kps, "batch.Commit(pebble.NoSync)") || strings.Contains(kps, "DisableWAL: true,")),
+		"server/kv/kv_pebble.go: pebble.Options", "Pebble's own write-ahead log is disabled: what was not flushed is lost by a crash and is re-applied from the shard's WAL")
+	wr := parse("server/wal/wal_reader.go")
+	hn := funcDecl(wr, "forwardReader", "HasNext")
+	hnb := ""
+	if hn != nil {
+		hnb = squash(src(hn.Body))
+	}
+	wi := parse("server/wal/wal_impl.go")
+	lo := funcDecl(wi, "wal", "LastOffset")
+	lob := ""
+	if lo != nil {
+		lob = squash(src(lo.Body))
+	}
+	add("walReaderServesOnlySyncedEntries", "Bool", boolLean(strings.Contains(hnb, "return r.nextOffset <= r.wal.LastOffset()") && strings.Contains(lob, "return t.lastSyncedOffset.Load()")),
+		"server/wal/wal_reader.go: (*forwardReader).HasNext", "a reader (follower apply, leader replay, cursors) never hands out an entry beyond the last synced offset")
 	add("snapshotInstallReopensDatabase", "Bool", boolLean(iLc >= 0 && iNd > iLc && iEn2 > iNd && iSet > iEn2 && strings.Contains(hsb, "err := fc.wal.Clear()")),
 		"server/follower_controller.go: handleSnapshot", "after a snapshot the database is re-opened from the received files, gets the term's notifications setting, and commit offset and head are taken from it; the WAL is cleared")
 }
